@@ -13,6 +13,8 @@ CONSTANTS
   MaxHolds = 1
   MaxNoops = 2
   WithSettle = TRUE
+  MaxErrs = 1
+  FaultsAt = "any"
   PauseAtomic = FALSE
   StartRollback = FALSE
   EntityGC = FALSE
@@ -21,3 +23,5 @@ CONSTANTS
   JoinedStopped = FALSE
   LateRegisterChecked = FALSE
   BarrierExits = TRUE
+  IntPauseAtomic = FALSE
+  GaugeDeleteFirst = TRUE
